@@ -146,6 +146,8 @@ def lpmEvent (s : LSt) (ev : Json) : Except String LSt := do
       | [], .str "stop" => if s.ending.isNone then stepOr .consumer else fail "model source raises here"
       | [], .obj _ => do
         let e ← getStr r "raise"
+        -- the source raised: the model enters the error drain (`.drainErr e`); the queued
+        -- results follow as "result" events, then "drained", then "exit"
         if s.ending == some e then stepOr .consumer else fail "model source ends differently"
       | _, _ => fail "pull result does not match the model source"
     | _ => fail "consumer is not pulling"
@@ -155,13 +157,15 @@ def lpmEvent (s : LSt) (ev : Json) : Except String LSt := do
     | .submit x => if x != v then fail "submit of a different item" else stepOr .consumer
     | _ => fail "consumer is not submitting"
   | "result" =>
-    -- `result(q.get())` returned / raised
+    -- `result(q.get())` returned / raised (main loop, normal drain, or the drain after a source error)
     match s.c with
-    | .waitHead _ | .drain => do
+    | .waitHead _ | .drain | .drainErr _ =>
+      -- with an empty queue the drain loops do not call `result` at all (that is "drained")
+      if s.q.isEmpty then fail "queue is empty: no result to wait for" else do
       let s' ← stepOr .consumer
       let r ← ev.getObjVal? "r"
       match s'.c, r with
-      | .yielded _, .num _ => do
+      | .yielded _, .num _ | .yieldedErr _, .num _ => do
         let v ← r.getInt?
         if s'.delivered.getLast? != some v then fail "different result delivered" else pure s'
       | .exitWait (some e) false, .obj _ => do
@@ -172,6 +176,7 @@ def lpmEvent (s : LSt) (ev : Json) : Except String LSt := do
   | "drained" =>
     match s.c, s.q with
     | .drain, [] => stepOr .consumer
+    | .drainErr _, [] => stepOr .consumer      -- error drain finished: the source's exception is re-raised
     | _, _ => fail "queue not empty or consumer not draining"
   | "resume" => stepOr .resume
   | "close" => stepOr .close
